@@ -245,6 +245,21 @@ def concatGo (np ns : Nat) : List Compact → Compact
 
 def concat (ds : List Compact) : Compact := concatGo 0 0 ds
 
+/-- `concat_collocations` on a list whose members do NOT all have the group order of the first
+(flag `true` = this member's first group carries the name of the first member's second group):
+the code takes names and sizes from the group *names* but shifts the pair rows by *position*.
+Outside the property (precondition: one group order per list); modelled so that model and code
+can be compared on such lists. -/
+def concatMixedGo (np ns : Nat) : List (Compact × Bool) → Compact
+  | [] => { pairs := [], P := [], S := [] }
+  | (d, f) :: ds =>
+    let dP := if f then d.S else d.P
+    let dS := if f then d.P else d.S
+    let r := concatMixedGo (np + dP.length) (ns + dS.length) ds
+    { pairs := shift np ns d.pairs ++ r.pairs, P := dP ++ r.P, S := dS ++ r.S }
+
+def concatMixed (ds : List (Compact × Bool)) : Compact := concatMixedGo 0 0 ds
+
 def expandAll : List Compact → Option (List (List (Row × Row)))
   | [] => some []
   | d :: ds =>
@@ -286,6 +301,8 @@ private def ex1 : Compact :=
 #guard expand (concat [ex1, ex1]) == (expandAll [ex1, ex1]).map List.flatten
 #guard (concatAliased [ex1] [0, 0]).pairs == [(3, 4), (2, 3), (2, 5), (2, 4), (3, 4), (2, 3), (2, 5), (2, 4)]
 #guard concatAliased [ex1, swap ex1] [0, 1] == concat [ex1, swap ex1]
+#guard concatMixed [(ex1, false), (ex1, false)] == concat [ex1, ex1]
+#guard (concatMixed [(ex1, false), (swap ex1, true)]).pairs == [(1, 1), (0, 0), (0, 2), (0, 1), (3, 4), (2, 3), (4, 3), (3, 3)]
 #guard (compactify [(7, 3), (2, 3), (7, 9)] (List.replicate 8 (r1 0)) (List.replicate 10 (r1 1))).toOption.map (·.map (·.pairs))
          == some (some [(0, 0), (1, 0), (0, 1)])
 #guard uniq [5, 0, 5, 1, 0, 3] == [5, 0, 1, 3]
